@@ -184,7 +184,7 @@ def _nodes_with_values(case):
     return [(fi, pn, nd) for fi, pn, nd in _all_nodes(case) if nd['module'] is not None and nd['values']]
 
 
-PRESERVING = ['rename_files', 'wrap_ns', 'perm_meta', 'perm_tasks', 'perm_uses', 'perm_keys', 'fmt_swap', 'add_ignored',
+PRESERVING = ['rename_files', 'wrap_ns', 'perm_meta', 'perm_inputs', 'perm_tasks', 'perm_uses', 'perm_keys', 'fmt_swap', 'add_ignored',
               'add_default', 'to_context', 'gv_change', 'add_absent_optional', 'wild_swap', 'multi_config']
 CHANGING = ['chg_value', 'chg_value', 'chg_value_deep', 'chg_obj_arg', 'retag', 'rewire', 'drop_optional', 'chg_context',
             'chg_default_param']
@@ -224,6 +224,11 @@ def rewrite(draw, case, kinds, n_max=3):
         elif kind == 'perm_meta':
             mi, ti = draw(st.sampled_from(tasks))
             prog['modules'][mi]['tasks'][ti]['params'].reverse()
+        elif kind == 'perm_inputs':
+            cands = [(mi, ti) for (mi, ti) in tasks if len(prog['modules'][mi]['tasks'][ti]['inputs']) >= 2]
+            if cands:
+                mi, ti = draw(st.sampled_from(cands))
+                prog['modules'][mi]['tasks'][ti]['inputs'].reverse()
         elif kind == 'perm_tasks':
             for fi, pn, nd in _all_nodes(case):
                 if nd['tasks_how'] == 'list':
@@ -381,6 +386,8 @@ def rewrite(draw, case, kinds, n_max=3):
                 for p in prog['modules'][mi]['tasks'][ti]['params']:
                     if 'default' in p and not p.get('ignore') and not p.get('object') and not p.get('dtype'):
                         cands.append((mi, p))
+            if any(p.get('dpdv') for _, p in cands):
+                cands = [(mi, p) for mi, p in cands if p.get('dpdv')]
             if cands:
                 mi, p = draw(st.sampled_from(cands))
                 for fi, pn, nd in _all_nodes(case):
